@@ -5,7 +5,7 @@
    accepted" is proved (C12); the bound is runtime. *)
 From Coq Require Import List NArith.
 From stdpp Require Import gmap.
-From RaftModel Require Import Base Config Commitment Node Leader.
+From RaftModel Require Import Base Config Commitment Node Leader LoopTable Paths.
 From RaftProofs Require Import LeaderProofs.
 Open Scope N_scope.
 
@@ -48,3 +48,13 @@ Example C20_nontrivial :
     res = [mkFR 11 5 E_ABORTED 0; mkFR 12 6 E_ABORTED 0] /\ l_inflight ls' = []
   end.
 Proof. vm_compute. repeat split. Qed.
+
+
+(* "Restore is refused while a leadership transfer is in progress": on the control-flow paths regenerated
+   from leaderLoop's userRestoreCh case (Model/LoopTable.v, decision procedure Model/Paths.v) the branch
+   taken when getLeadershipTransferInProgress() holds answers ErrLeadershipTransferInProgress and calls
+   nothing else; every other path runs restoreUserSnapshot (whose own refusal while a membership change is
+   uncommitted is C20_restore_refused_during_config_change). *)
+Theorem C20_restore_refused_during_leadership_transfer : restore_case_ok = true.
+Proof. vm_compute. reflexivity. Qed.
+Print Assumptions C20_restore_refused_during_leadership_transfer.
